@@ -36,6 +36,7 @@ import (
 	"os"
 	"os/exec"
 	"path/filepath"
+	"runtime"
 	"sort"
 	"strconv"
 	"strings"
@@ -60,7 +61,7 @@ func c14ParseConc(c string) (g, r int, inner string, ok bool) {
 	}
 	g, e1 := strconv.Atoi(f[1])
 	r, e2 := strconv.Atoi(f[2])
-	if e1 != nil || e2 != nil || g < 1 || g > 64 || r < 1 || r > 50 || strconv.Itoa(g) != f[1] || strconv.Itoa(r) != f[2] {
+	if e1 != nil || e2 != nil || g < 1 || g > 64 || r < 1 || r > 500 || strconv.Itoa(g) != f[1] || strconv.Itoa(r) != f[2] {
 		return
 	}
 	if !strings.HasPrefix(f[3], "tax ") && !strings.HasPrefix(f[3], "taxd ") {
@@ -304,8 +305,7 @@ func c14ConcPrep(tax *obitax.Taxonomy, f []string, built map[string]*c14Built) (
 			return nil, m
 		}
 		return func() string {
-			seq := c14Seq(f[2])
-			w(seq)
+			seq := c14Out(w, c14Seq(f[2]))
 			v, ok := seq.GetAttribute(rank + "_taxid")
 			if !ok {
 				return "none"
@@ -332,8 +332,7 @@ func c14ConcPrep(tax *obitax.Taxonomy, f []string, built map[string]*c14Built) (
 			return nil, m
 		}
 		return func() string {
-			seq := c14Seq(f[1])
-			w(seq)
+			seq := c14Out(w, c14Seq(f[1]))
 			v, _ := seq.GetStringAttribute(key)
 			return c14Hex(v)
 		}, ""
@@ -364,8 +363,7 @@ func c14ConcPrep(tax *obitax.Taxonomy, f []string, built map[string]*c14Built) (
 			if l == nil {
 				return "nil"
 			}
-			seq := mk()
-			w(seq) // obiannotate --add-lca-in: the shared worker
+			seq := c14Out(w, mk()) // obiannotate --add-lca-in: the shared worker
 			v, _ := seq.GetIntAttribute("lca_taxid")
 			e, _ := seq.GetFloatAttribute("lca_error")
 			n, _ := seq.GetStringAttribute("lca_name")
@@ -404,6 +402,52 @@ func c14ConcPrep(tax *obitax.Taxonomy, f []string, built map[string]*c14Built) (
 		}, ""
 	}
 	return nil, "bad-op"
+}
+
+// c14Barrier: a reusable barrier for the goroutines still alive
+type c14Barrier struct {
+	mu      sync.Mutex
+	cond    *sync.Cond
+	n       int // participants
+	waiting int
+	gen     int
+}
+
+func (b *c14Barrier) wait() {
+	b.mu.Lock()
+	b.waiting++
+	if b.waiting >= b.n {
+		b.waiting = 0
+		b.gen++
+		b.cond.Broadcast()
+	} else {
+		for gen := b.gen; gen == b.gen; {
+			b.cond.Wait()
+		}
+	}
+	b.mu.Unlock()
+}
+
+// leave: a goroutine that ends (normally, by a panic or by log.Fatal) no longer takes part
+func (b *c14Barrier) leave() {
+	b.mu.Lock()
+	b.n--
+	if b.n > 0 && b.waiting >= b.n {
+		b.waiting = 0
+		b.gen++
+		b.cond.Broadcast()
+	}
+	b.mu.Unlock()
+}
+
+// c14Out: the sequence the pipeline keeps after the worker (MakeIWorker forwards the slice the worker RETURNS)
+func c14Out(w obiseq.SeqWorker, seq *obiseq.BioSequence) *obiseq.BioSequence {
+	out, err := w(seq)
+	runtime.Gosched() // the consumer of the slice is not the next instruction: let the other workers run in between
+	if err != nil || len(out) != 1 || out[0] == nil {
+		return obiseq.NewBioSequence("lost", []byte("a"), "")
+	}
+	return out[0]
 }
 
 // c14Built: a predicate or a worker built once for the case (or how building it ended)
@@ -501,6 +545,16 @@ func c14ConcRun(g, r int, inner string) (string, []Fail) {
 		return op
 	}
 	sort.SliceStable(live, func(a, b int) bool { return opOf(live[a]) < opOf(live[b]) })
+	var blocks [][2]int // the runs of one kind in live
+	for i := range live {
+		if i == 0 || opOf(live[i]) != opOf(live[i-1]) {
+			blocks = append(blocks, [2]int{i, i + 1})
+		} else {
+			blocks[len(blocks)-1][1] = i + 1
+		}
+	}
+	bar := &c14Barrier{n: g}
+	bar.cond = sync.NewCond(&bar.mu)
 	// the same prepared queries from g goroutines released together, r rounds, each goroutine starting elsewhere in the list
 	type bad struct {
 		i, goroutine int
@@ -528,22 +582,37 @@ func c14ConcRun(g, r int, inner string) (string, []Fail) {
 				}
 				mu.Unlock()
 			}()
-			for round := 0; round < r; round++ {
-				// first round, and the odd goroutines in every round: the list from its head, all together (the same kind of
-				// query at the same time, first of all the predicates that keep a state); otherwise each from a place of its own
-				off := 0
-				if round > 0 && k%2 == 0 {
-					off = k * len(live) / g
+			call := func(i int) {
+				got := runs[i]()
+				nt++
+				if got != alone[i] {
+					nb++
+					if fb == nil {
+						fb = &bad{i, k, got}
+					}
 				}
-				for j := range live {
-					i := live[(j+off)%len(live)]
-					got := runs[i]()
-					nt++
-					if got != alone[i] {
-						nb++
-						if fb == nil {
-							fb = &bad{i, k, got}
-						}
+			}
+			defer bar.leave()
+			for round := 0; round < r; round++ {
+				if round%3 == 2 {
+					// mixed round: the whole list, the odd goroutines from its head together, the even ones each from a place
+					// of its own (calls of different kinds overlap)
+					off := 0
+					if k%2 == 0 {
+						off = k * len(live) / g
+					}
+					for j := range live {
+						call(live[(j+off)%len(live)])
+					}
+					continue
+				}
+				// wave round: what the workers of a command do: all the goroutines make the calls of ONE kind at the same time
+				// (the same predicate / worker on different sequences, each goroutine starting elsewhere in the block)
+				for _, bl := range blocks {
+					bar.wait()
+					n := bl[1] - bl[0]
+					for j := 0; j < n; j++ {
+						call(live[bl[0]+(j+k*n/g)%n])
 					}
 				}
 			}
@@ -732,6 +801,9 @@ func c14RaceBuild() string {
 	if repo != "" && repo != "/repo" {
 		// a scratch tree is under check: the driver wrote go.alt.mod (module replaced by that tree)
 		alt := filepath.Join(root, "harness", "go.alt.mod")
+		if m := os.Getenv("VERIF_C14_ALTMOD"); m != "" { // a modfile of one's own (the shared one may be rewritten by a concurrent check)
+			alt = m
+		}
 		if b, err := os.ReadFile(alt); err == nil && strings.Contains(string(b), "=> "+repo) {
 			args = append(args, "-modfile", alt)
 		} else {
@@ -815,10 +887,10 @@ func c14RaceReports(stderr string) (int, []string) {
 // merged taxids (the closures then take their "deprecated taxid" branch)
 func c14GenConc(rng *rand.Rand, tier string, emit func(string)) {
 	type spec struct{ n, kind, nq, g, r int }
-	specs := []spec{{1200, 3, 260, 8, 3}, {1500, 0, 260, 8, 3}, {500, 1, 220, 8, 3}, {900, 5, 240, 8, 3}}
+	specs := []spec{{1200, 3, 260, 8, 30}, {1500, 0, 260, 8, 60}, {400, 1, 220, 8, 15}, {700, 5, 240, 8, 15}}
 	if tier == "thorough" {
-		specs = []spec{{2500, 3, 400, 16, 4}, {3000, 0, 400, 16, 4}, {900, 1, 300, 12, 4}, {1500, 5, 350, 16, 4}, {2000, 6, 400, 8, 6}, {1200, 2, 300, 16, 4},
-			{250, 3, 300, 16, 6}, {60, 0, 300, 16, 8}, {3500, 3, 300, 8, 3}, {1800, 4, 400, 12, 4}}
+		specs = []spec{{2500, 3, 400, 16, 25}, {3000, 0, 400, 16, 40}, {900, 1, 300, 12, 15}, {1500, 5, 350, 16, 20}, {2000, 6, 400, 8, 40}, {1200, 2, 300, 16, 40},
+			{250, 3, 300, 16, 50}, {60, 0, 300, 16, 60}, {3500, 3, 300, 8, 20}, {1800, 4, 400, 12, 40}}
 	}
 	var lines []string
 	for ci, s := range specs {
@@ -830,20 +902,46 @@ func c14GenConc(rng *rand.Rand, tier string, emit func(string)) {
 		t := c14Label(rng, c14Shape(rng, n, s.kind), rng.Intn(3), ranks)
 		c14Aliases(rng, t, 120+rng.Intn(200))
 		var qs []string
-		for len(qs) < s.nq {
+		nlist := 0
+		for len(qs) < s.nq/2 {
 			for _, q := range c14RandQueries(rng, t, ranks, 40) {
 				op := strings.SplitN(q, ":", 2)[0]
 				if !c14ConcOps[op] {
 					continue
 				}
-				if (op == "isub" || op == "irank" || op == "ibel" || op == "itx") && rng.Intn(3) > 0 {
-					continue // whole-taxonomy listings: a few
+				if op == "isub" || op == "irank" || op == "ibel" || op == "itx" { // whole-taxonomy listings (two unbuffered channels per taxon): two or three
+					if nlist >= 2+ci%2 {
+						continue
+					}
+					nlist++
 				}
 				qs = append(qs, q)
 			}
 			for j := 0; j < 4; j++ {
 				qs = append(qs, "val:"+c14SeqAttrA(rng, t), "vf:"+c14SeqAttrA(rng, t))
 			}
+		}
+		// one run of a command: ONE option value (clade list, rank list) = one predicate / worker, and every sequence of the
+		// run, each with a taxid of its own, goes through it (what a worker goroutine leaves in the closure is seen, if at all,
+		// by a call on ANOTHER taxid)
+		clade := func() int { // an inner node: part of the sequences are below it
+			ch := t.getRef().chain(t.ids[rng.Intn(len(t.ids))])
+			return ch[len(ch)/2]
+		}
+		rankOf := func() string { return c14Hex(t.rank[t.ids[rng.Intn(len(t.ids))]]) }
+		sq := func() string {
+			if rng.Intn(4) == 0 {
+				return c14SeqAttrA(rng, t)
+			}
+			return strconv.Itoa(t.ids[rng.Intn(len(t.ids))])
+		}
+		ca, cb, cc := clade(), clade(), clade()
+		r1, r2 := rankOf(), rankOf()
+		for j := 0; j < s.nq/10; j++ {
+			qs = append(qs, fmt.Sprintf("sp:%d:%s", ca, sq()), fmt.Sprintf("rt:%d,%d:%s", ca, cb, sq()), fmt.Sprintf("ig:%d:%s", cc, sq()),
+				fmt.Sprintf("flt:%s:%d:%d:%s", r1, ca, cc, sq()), fmt.Sprintf("hq:%s:%s", r1, sq()), fmt.Sprintf("rr:%s,%s:%s", r1, r2, sq()),
+				fmt.Sprintf("sr:%s:%s", r2, sq()), fmt.Sprintf("sw:%s:%s", []string{"sp", "ge", "fa", "r" + r1}[j%4], sq()),
+				[]string{"sn:", "tr:", "tpath:"}[j%3]+strconv.Itoa(t.ids[rng.Intn(len(t.ids))]), fmt.Sprintf("rs:%d:%s", []int{ca, cb, cc}[j%3], sq()))
 		}
 		// obicleandb: ONE IsAValidTaxon() predicate sees every sequence of the run, many of them with a merged taxid it has not seen yet
 		for _, j := range rng.Perm(len(t.aliases))[:100] {
